@@ -1,4 +1,4 @@
-CONSTANTS CiStart = 14 K = 6 NP = 2 Sizes = {0, 1, 2, 4, 7} Fills = {0, 1, 2} MaxBlocks = 3 Faults = {"none", "drop", "err2"} Units = {"mrag0", "mrag1", "pgu", "pgt", "s1", "s2", "s3", "s4", "c1", "c2", "bp", "bs", "fill", "sh"} Policies = {"strict", "lenient"} UnitBlocks = 2 TailCheck = TRUE Foreign = {"none", "page"} TailAtForeign = TRUE
+CONSTANTS CiStart = 14 K = 6 NP = 2 Sizes = {0, 1, 2, 4, 7} Fills = {0, 1, 2} MaxBlocks = 3 Faults = {"none", "drop", "err2"} Units = {"mrag0", "mrag1", "pgu", "pgt", "s1", "s2", "s3", "s4", "c1", "c2", "bp", "bs", "fill", "sh"} Policies = {"strict", "lenient"} UnitBlocks = 2 TailCheck = TRUE Foreign = {"none", "page"} TailAtForeign = TRUE Noise = {0, 26, 31, 128} NoisePos = {"all"} NoiseFaults = {"none"}
 SPECIFICATION LeapSpec
-INVARIANTS Sound Complete Resume
+INVARIANTS Sound Complete Resume NoiseNeutral
 CHECK_DEADLOCK FALSE
